@@ -942,3 +942,73 @@ func init() {
 		},
 	})
 }
+
+func init() {
+	register(&Rule{
+		Name: "refusal-is-for-requests-in-order", Props: []string{"C08", "C13"}, Engine: "AST", Floor: 2,
+		Doc: "the concurrency limit (and a connection that is closing) refuses requests, not frames: the refusing branch of the stream loop is entered only for a HEADERS frame on an id above the latest accepted one, so that every other frame on an id that names no stream is judged by that stream's state exactly as it is below the limit (RFC 7540 5.1: WINDOW_UPDATE or DATA on an idle stream is a connection error, whatever the handlers are doing); and a refused request still moves the mark that later ids are compared with (5.1.1)",
+		Run: func(p *Prog, r *Out) {
+			fd := p.decl("(*serverConn).handleStreams")
+			if fd == nil {
+				r.undecided("handleStreams", "?", "no longer resolves")
+				return
+			}
+			r.fn("(*serverConn).handleStreams")
+			var refuse *ast.IfStmt
+			ast.Inspect(fd.Body, func(n ast.Node) bool {
+				if ifs, ok := n.(*ast.IfStmt); ok && strings.Contains(squash(p.text(ifs.Cond)), "openStreams>=int(sc.st.maxStreams)") {
+					refuse = ifs
+				}
+				return true
+			})
+			if refuse == nil {
+				r.bad("the refusing branch", p.pos(fd.Pos()), "no branch testing openStreams >= maxStreams found in handleStreams")
+				return
+			}
+			// (limit || closing) && HEADERS && id > lastID
+			okCond := false
+			if be, ok := ast.Unparen(refuse.Cond).(*ast.BinaryExpr); ok && be.Op == token.LAND {
+				atoms := map[string]bool{}
+				var lim ast.Expr
+				for _, c := range conjunctsOf(refuse.Cond) {
+					t := squash(p.text(ast.Unparen(c)))
+					atoms[t] = true
+					if strings.Contains(t, "openStreams>=") {
+						lim = ast.Unparen(c)
+					}
+				}
+				limOK := false
+				if lim != nil {
+					ds := map[string]bool{}
+					for _, d := range disjuncts(lim) {
+						ds[squash(p.text(d))] = true
+					}
+					limOK = len(ds) == 2 && ds["openStreams>=int(sc.st.maxStreams)"] && ds["wasClosing"]
+				}
+				okCond = limOK && atoms["fr.Type()==FrameHeaders"] && atoms["fr.Stream()>sc.lastID"] && len(atoms) == 3
+			}
+			r.check(okCond, "only a request that is in order is refused", p.pos(refuse.Pos()), "(openStreams >= maxStreams || wasClosing) && fr.Type() == FrameHeaders && fr.Stream() > sc.lastID", "the stream loop refuses, at the concurrency limit or while closing, frames other than a HEADERS frame on an id above the latest: WINDOW_UPDATE or DATA on an idle stream, or HEADERS on an id below the latest, then comes back as RST_STREAM(REFUSED_STREAM) while the handlers are busy and is a connection error the moment one returns")
+			// the refused id moves the ordering mark
+			moves := false
+			ast.Inspect(refuse.Body, func(n ast.Node) bool {
+				switch x := n.(type) {
+				case *ast.AssignStmt:
+					if len(x.Rhs) == 1 && squash(p.text(x.Rhs[0])) == "fr.Stream()" {
+						moves = true
+					}
+				case *ast.CallExpr:
+					if p.calleeOf(x) == "atomic.StoreUint32" && len(x.Args) == 2 && squash(p.text(x.Args[1])) == "fr.Stream()" {
+						moves = true
+					}
+				}
+				return true
+			})
+			key := "a refused request still moves the mark later ids are compared with"
+			if moves {
+				r.ok(key, p.pos(refuse.Pos()), "the refused id is recorded")
+			} else {
+				r.bad(key, p.pos(refuse.Pos()), "a request refused at the concurrency limit leaves no trace in what later stream ids are compared with (sc.lastID moves only when a request is accepted, and it is also the GOAWAY's last-stream-id, which a refused request must not raise): HEADERS on a lower id that the peer skipped is then accepted and served although RFC 7540 5.1.1 makes it a connection error, and after 256 more refusals the closed-stream memory has forgotten a stream that lastID still names, which is then served a second time")
+			}
+		},
+	})
+}
